@@ -32,5 +32,12 @@ type Void struct{}
 
 // NewHost creates a new extension host.
 func NewHost() *Host {
-	return &Host{Events: &Events{}}
+	h := &Host{Events: &Events{}}
+
+	// A listener registered under one name on both after-events sees them in emission order.
+	seq := newSequencer()
+	h.Events.AfterMessageDeleted.seq = seq
+	h.Events.AfterMessageStored.seq = seq
+
+	return h
 }
